@@ -55,7 +55,7 @@ TEMPLATES = [
 ]
 
 PROBES = ["switch_inside_mkdir_window", "crash_between_wrapper_cpp_writes", "torn_nonempty_prefix",
-          "stale_longer_file_overwritten", "wrapper_reused_3x_with_xml_overloads", "same_submodule_list_object_passed_again",
+          "stale_longer_file_overwritten", "wrapper_reused_3x_with_xml_overloads", "same_submodule_list_object_passed_again", "input_named_through_a_symlink",
           "ascii_locale_nonascii_input", "task_restarted", "shared_matlab_outdir",
           "submodule_stem_with_dot_i", "submodule_h_extension", "cwd_is_source_dir",
           "crash_in_open_write_window", "second_run_over_existing_outputs",
@@ -181,7 +181,15 @@ def gen_build(tape):
                                force_ns=force_ns)
         text = G.render(lex, tape)
         path = "%s/%s%s" % (src, stem, ext)
-        sc["inputs"][path] = text.encode("utf-8")
+        if tape.bool(0.12, "input-is-a-symlink"):
+            # the named input is a symbolic link to a file of another name elsewhere (a variant picked by a link,
+            # a source tree assembled from links): the NAME given on the command line is what counts
+            real = "%s/variants/%s_impl%s" % (src, stem.replace(".", "_"), tape.pick([ext, ".txt"], "real-ext"))
+            sc["inputs"][real] = text.encode("utf-8")
+            sc.setdefault("links", {})[path] = real if tape.bool(0.5, "absolute-link") else os.path.relpath(real, src)
+            sc.setdefault("link_real", {})[path] = real
+        else:
+            sc["inputs"][path] = text.encode("utf-8")
         return path, m, text
 
     tpl_path = src + "/module.tpl"
@@ -365,6 +373,8 @@ def _new_world(tape, sc, with_stale, fault_plan=None):
         w.mkdirs(d)
     for p, data in sc["inputs"].items():
         w.put(p, data)
+    for lp, target in sc.get("links", {}).items():
+        w.symlink(lp, target)
     w.virtual_real[BUNDLED_TPL] = BUNDLED_TPL_BYTES
     if with_stale:
         for p, data in sc["stale"].items():
@@ -458,6 +468,8 @@ class BuildObserver:
     def allowed_read(self, spec, path):
         if path in spec["srcs"] or path == spec["tpl"]:
             return True
+        if path in [self.sc.get("link_real", {}).get(x) for x in spec["srcs"]]:
+            return True         # the file a symlinked input leads to
         # Looking at the previous version of a file the task is asked to produce (compare before rewriting,
         # open for update) is not "reading something else": what matters is that the final content does not
         # depend on it, which I4 / H1 decide from the result.
@@ -471,7 +483,7 @@ class BuildObserver:
         # others as well would still be "its inputs"
         src_arg = [os.path.normpath(os.path.join(spec["cwd"], p))
                    for p in spec["argv"][spec["argv"].index("--src") + 1].split(";")]
-        return path in src_arg
+        return path in src_arg or path in [self.sc.get("link_real", {}).get(x) for x in src_arg]
 
     def __call__(self, w, ev):
         step, tname, inc, op, path, res, n = ev
@@ -606,8 +618,11 @@ def run_build(tape, ctx):
             w.probe("xml_source_relative_to_cwd")
         if sc.get("decoys"):
             w.probe("decoy_neighbours_present")
+        if sc.get("links"):
+            w.probe("input_named_through_a_symlink")
         if s["locale"] == "ascii" and \
-                any(any(b > 127 for b in sc["inputs"][p]) for p in s["srcs"] + ([s["tpl"]] if s.get("tpl") else [])):
+                any(any(b > 127 for b in sc["inputs"][sc.get("link_real", {}).get(p, p)])
+                    for p in s["srcs"] + ([s["tpl"]] if s.get("tpl") else [])):
             w.probe("ascii_locale_nonascii_input")
     if len({s.get("outdir") for s in sc["tasks"] if s["kind"] == "ml"}) == 1 and \
             sum(1 for s in sc["tasks"] if s["kind"] == "ml") == 2:
@@ -773,6 +788,11 @@ def gen_history(tape):
     for fn, data in h["xml_variants"][0].items():
         h["inputs"]["%s/xml/%s" % (R, fn)] = data
     h["tpl"] = TEMPLATES[tape.weighted([3, 2, 2], "tpl")]
+    # an ignore list naming one class of the texts (and one that does not exist)
+    plain = sorted(c.qname for m in models for c in m.classes() if c.tmpl is None)
+    h["ignore_pool"] = ([tape.pick(plain, "ignored-class")] if plain else []) + ["gtsam::NoSuchClass"]
+    mplain = sorted(c.qname for c in mm.classes() if c.tmpl is None)
+    h["mignore_pool"] = ([tape.pick(mplain, "m-ignored-class")] if mplain else [""])
     nops = 2 + tape.small(6, "n-ops", p=0.75)
     nw = 0
     for i in range(nops):
@@ -784,14 +804,15 @@ def gen_history(tape):
                 "top": tape.wpick([("", 4), ("gtsam", 1)], "top-ns"),
                 "boost": tape.bool(0.4, "boost"),
                 "xml": tape.wpick([(R + "/xml", 3), ("", 2), (R + "/missing", 0.5)], "xml"),
-                "ignore": [],
+                "ignore": h["ignore_pool"] if tape.bool(0.35, "use-ignore-list") else [],
             })
             nw += 1
             h["ops"].append({"op": "new", "w": nw - 1})
             continue
         if kind == "matlab":
             h["ops"].append({"op": "matlab", "out": "%s/build/tbx%d" % (R, i), "boost": tape.bool(0.2, "boost"),
-                             "src": "tool2.i" if tape.bool(0.4, "matlab-later-version") else "tool.i"})
+                             "src": "tool2.i" if tape.bool(0.4, "matlab-later-version") else "tool.i",
+                             "ignore": h["mignore_pool"] if tape.bool(0.3, "m-use-ignore") else [""]})
             continue
         if kind == "xml":
             # the documentation store changes behind the same path: other edition / missing / back
@@ -825,16 +846,23 @@ def _hist_apply(h, wrappers, op):
         return ("ok", None)
     if kind == "new":
         o = h["wrappers"][op["w"]]
+        # option objects are shared by all wrappers of the process, as in a script that builds them once
+        sh = h.setdefault("_shared_subs", {})
+        top = sh.setdefault(("top", o["top"]), _parse_top_ns(o["top"]))
+        ign = sh.setdefault(("ignore", tuple(o["ignore"])), list(o["ignore"]))
         wrappers[op["w"]] = PybindWrapper(module_name=o["module_name"],
-                                          top_module_namespaces=_parse_top_ns(o["top"]),
-                                          use_boost_serialization=o["boost"], ignore_classes=o["ignore"],
+                                          top_module_namespaces=top,
+                                          use_boost_serialization=o["boost"], ignore_classes=ign,
                                           module_template=h["tpl"], xml_source=o["xml"])
         return ("ok", None)
     world = W.WORLD
     before = dict(world.files)
     try:
         if kind == "matlab":
-            mw = MatlabWrapper(module_name="tool", top_module_namespace=[""], ignore_classes=[""],
+            sh = h.setdefault("_shared_subs", {})
+            mw = MatlabWrapper(module_name="tool", top_module_namespace=sh.setdefault(("mtop",), [""]),
+                               ignore_classes=sh.setdefault(("mignore", tuple(op.get("ignore", [""]))),
+                                                            list(op.get("ignore", [""]))),
                                use_boost_serialization=op["boost"])
             mw.wrap([R + "/src/" + op.get("src", "tool.i")], path=op["out"])
             ret = None
